@@ -746,10 +746,8 @@ impl JSON {
             if &property.property_type == "f64" {
                 if value.f64.is_some() {
                     let raw_value = value.f64.unwrap();
-                    let mut _parsed_float = "0.0".to_string();
-                    if raw_value != 0.0 {
-                        _parsed_float = raw_value.to_string();
-                    }
+                    // an integer-valued float keeps its fractional part ("1.0", not "1"), otherwise it is read back as an integer
+                    let _parsed_float = format!("{:?}", raw_value);
                     let formatted_property = format!("  \"{}\": {}", &property.property_name, _parsed_float);
                     properties_list.push(formatted_property.to_string());
                 }
